@@ -212,7 +212,9 @@ def einsum(*operands, dtype=None, optimize=False, split_every=None, **kwargs):
     all_inds = {a for i in inputs for a in i}
 
     # Which indices are contracted?
-    contract_inds = all_inds - set(outputs)
+    # Sorted: the order ends up in the blockwise output indices and hence in the
+    # name, which must not follow set iteration order (PYTHONHASHSEED).
+    contract_inds = sorted(all_inds - set(outputs))
     ncontract_inds = len(contract_inds)
 
     if len(inputs) > 1 and len(outputs) > 0:
